@@ -268,6 +268,18 @@ func runC16(r resIface, c *c16case, rng *prng.R, scratch string) {
 			}
 			lines = append(lines, keepers...)
 			lines = append(lines, "listed-but-nonexistent")
+			if c.Index%2 == 0 && len(lines) > 3 {
+				// a hand-edited key file: blank lines between the keys (an empty name is just another key that does not exist)
+				var spaced []string
+				for q, l := range lines {
+					spaced = append(spaced, l)
+					if q == 0 || q == len(lines)/2 {
+						spaced = append(spaced, "")
+					}
+				}
+				lines = spaced
+				r.Count("key_files_with_blank_lines", 1)
+			}
 			keyFilePath = filepath.Join(scratch, fmt.Sprintf("c16-keys-%d.txt", c.Index))
 			ioutil.WriteFile(keyFilePath, []byte(strings.Join(lines, "\n")+"\n"), 0644)
 		}
